@@ -26,8 +26,9 @@ def run_suite(tree: str, log: str, select: list[str] | None = None) -> tuple[str
     cmd = f"cd {tree} && PYTHONPATH={tree} timeout 1800 /venv/bin/python -m pytest -q -p no:cacheprovider --timeout=900 -q {sel} > {log} 2>&1 < /dev/null"
     subprocess.run(cmd, shell=True)
     txt = open(log, errors="replace").read()
-    m = re.findall(r"^=+ (.*(?:passed|failed).*) in [\d.]+s", txt, re.M)
-    failed = set(re.findall(r"^(?:FAILED|ERROR) (\S+)", txt, re.M))
+    m = re.findall(r"^=* ?(\d+ (?:passed|failed).*?) in [\d.]+s", txt, re.M)
+    # test ids may contain spaces ("[SQLite PersistentProcess Json-sigterm]"); the short summary appends " - <message>"
+    failed = set(m.strip() for m in re.findall(r"^(?:FAILED|ERROR) (pynenc_tests/\S+?::.+?)(?: - .*)?$", txt, re.M))
     return (m[-1] if m else "no summary (timeout?)"), failed
 
 
